@@ -496,6 +496,15 @@ def r7_cache_keys_complete(repo=None):
                                     "changes - a reader created earlier goes on answering from the directory chosen then, a new reader "
                                     "chooses again" % (tn, norm(ast.unparse(lp.iter))[:40], tn), line=st.lineno)
                         continue
+                    if missing:
+                        # a key component and a value component unpacked from one call: the value may well be a function of that key
+                        # component (a helper returning (directory, path in it)) - not decidable from here
+                        for a_ in pyfront.walk_no_nested(fn):
+                            if isinstance(a_, ast.Assign) and any(isinstance(t_, ast.Tuple) for t_ in a_.targets):
+                                tn = {x.id for t_ in a_.targets for x in ast.walk(t_) if isinstance(x, ast.Name)}
+                                if (tn & knames) and (tn & (seen - knames)):
+                                    raise AnalysisError("%s: `%s` is unpacked from the same call as the key component `%s`; whether the memoised value "
+                                                        "is a function of the key is not decided" % (q, sorted(tn & (seen - knames))[0], sorted(tn & knames)[0]))
                     site = "%s:%s %s `%s[%s]`" % (m.rel, st.lineno, q, memo, norm(ast.unparse(keyexpr)))
                     same_key = all(norm(ast.unparse(h.value.slice)) == norm(ast.unparse(keyexpr)) for h in hits)
                     if missing:
